@@ -5,7 +5,7 @@ import math
 
 import wn
 from wn.constants import ADJ, ADJ_SAT
-from wn._core import Synset
+from wn._core import Synset, _INFERRED_SYNSET
 from wn.ic import Freq, information_content
 
 
@@ -230,7 +230,9 @@ def _most_informative_lcs(synset1: Synset, synset2: Synset, ic: Freq) -> Synset:
     # a higher weight means less information, and with several paths to
     # the root the most informative common hypernym need not be among
     # the deepest ones, so look at all of them
-    subsumers = synset1.common_hypernyms(synset2)
+    # synsets inferred from an expand lexicon have no weight of their own
+    subsumers = [ss for ss in synset1.common_hypernyms(synset2)
+                 if ss.id != _INFERRED_SYNSET]
     if not subsumers:
         raise wn.Error(f'no common hypernyms for {synset1!r} and {synset2!r}')
     return max(subsumers, key=lambda ss: information_content(ss, ic))
